@@ -26,7 +26,7 @@ COMPONENTS = {
 }
 ASSUMPTIONS = [
     "'put on the wire' = handed to transport.write of the connection's transport (client-side wire tap)",
-    "a peer FIN is not a write fault; sends are not placed at the very instant the FIN is delivered (the write to the closing transport would be one)",
+    "a peer FIN is not a write fault; a write into a transport the client is closing is one: sends are not placed at the very instant the FIN is delivered, and a message accepted while a close is still in progress (slow close under flow control) is not judged here",
     "messages whose lifetime ends within 0.1 s of the next connection are not judged (C02/C16 cover expiry)",
 ]
 PROBES = ["c01.accepted_while_down", "c01.same_instant_sends", "c01.packet_id_wrapped", "c01.outage", "c01.stall", "c01.send_at_establish"]
@@ -167,6 +167,16 @@ def judge(w: World, sc: dict, *, socket_level: bool = True):
     if len(times) != len(set(times)):
         probes["c01.same_instant_sends"] = 1
     est_times = {iv[0] for iv in ivs}
+    # windows in which the client is closing a transport but still calls itself connected (a close held up by unflushed
+    # bytes under flow control can last long): a message accepted there is written into the closing transport, which is a
+    # write fault from the client's point of view - the retry policy decides (C02), not this property
+    closing = {}
+    for (seq, t, kind, f) in w.trace.events:
+        if kind == "conn.close" and f.get("link") not in closing:
+            closing[f["link"]] = [t, None]
+        elif kind == "conn.lost" and f.get("link") in closing and closing[f["link"]][1] is None:
+            closing[f["link"]][1] = t
+    closing = [(a, b if b is not None else 1e18) for (a, b) in closing.values()]
     order = []
     for s in h.subs:
         if s["exc"] is not None:
@@ -176,6 +186,11 @@ def judge(w: World, sc: dict, *, socket_level: bool = True):
         if s["t_accept"] is None or not s["returned"] and not s["tx"] and w.verdict != "ok":
             continue
         ta = s["t_accept"]
+        if any(a <= ta <= b for (a, b) in closing):
+            probes["c01.accepted_while_closing"] = 1
+            if s["tx"]:
+                order.append((s["tx"][0]["seq"], s["seq_call"], s["id"]))
+            continue
         if ta in est_times:
             probes["c01.send_at_establish"] = 1
         connected = any(a <= ta and (b is None or ta < b) for (a, b, _l) in ivs)
